@@ -158,10 +158,10 @@ prop('C14', level='other', design_ref='DESIGN.md section 6 (C14)',
      note='Trusted: T-LDB, T-STRUCT, write_state as a function of the counters. Bounded: generated index databases, row sizes '
           '{1,2,3,12500}, batch limits, kills between batches, abandon-then-index.',
      explanation='Batch discipline deductive; content preservation bounded (labelled); KF-C14-1 listed.',
-     bounded=[{'obligation': 'index.c14.bounded', 'driver': 'index_scenario.py', 'request': {'mode': 'c14', 'rounds': 14},
+     bounded=[{'obligation': 'index.c14.bounded', 'driver': 'index_scenario.py', 'request': {'mode': 'c14', 'rounds': 24},
                'what': 'every history identical before/after compaction (one go, batches, killed and resumed, abandoned then '
-                       'indexing/undoing on top)',
-               'bound': '14 (thorough: 84) generated databases x row sizes {1,2,3,12500} x batch limits {1,30,200,8e6} x 5 modes'}],
+                       'indexing/undoing on top; every third scenario: compact, index, compact again, index)',
+               'bound': '24 (thorough: 144) generated databases x row sizes {1,2,3,12500} x batch limits {1,30,200,8e6} x 6 modes'}],
      not_decided=['_compact_hashX / _compact_prefix / _compact_history row re-chunking not under deductive contract'],
      assumptions=[])
 
@@ -221,7 +221,8 @@ prop('C08', level='other', design_ref='DESIGN.md section 6 (C08)',
      bounded=[{'obligation': 'mempool.c08.bounded', 'driver': 'mempool_native.py', 'request': {'mode': 'c08', 'rounds': 40},
                'what': 'every observable of a synchronised mempool equals the model; touched set complete',
                'bound': '40 (thorough: 240) generated histories of 4-11 steps (arrivals, chains of 3-8, evictions, confirmations, '
-                        'generation-like inputs, 8 scripts)'}],
+                        'generation-like inputs, 8 scripts); every eighth history is one refresh of 260-640 new transactions '
+                        '(more than one fetch batch of 200) containing 3-6 chains of 5-11 links'}],
      not_decided=['_accept_transactions / _process_mempool / _fetch_and_accept exactness not under deductive contract'], assumptions=[])
 prop('C09', level='other', design_ref='DESIGN.md section 6 (C09)',
      technique='deductive verification of the index-consistency invariant (as C08) + bounded native race injection against an '
